@@ -35,10 +35,27 @@ def bf2_convert(f, ls):
         return err(e)
 
 
+def _import(text, enforce=True, force_path=None):
+    """`bf2file: str | TextIO`: the same text as a stream or - for plain ASCII without carriage returns, where the two
+    cannot differ - as a path, chosen by the text"""
+    import os
+    import zlib
+    use_path = text.isascii() and "\r" not in text and (zlib.crc32(text.encode()) % 3 == 0 if force_path is None else force_path)
+    if not use_path:
+        return Bf3File.bf2_import(io.StringIO(text), enforce)
+    p = b3.tmp_path()
+    try:
+        with open(p, "w", newline="") as fh:
+            fh.write(text)
+        return Bf3File.bf2_import(p, enforce)
+    finally:
+        os.unlink(p)
+
+
 @op("bf2.import")
 def bf2_import(enf, t):
     try:
-        f = Bf3File.bf2_import(io.StringIO(b3.parse_str(t)), enf == "1")
+        f = _import(b3.parse_str(t), enf == "1")
         return "ok " + b3.show_comments(f.comments) + " " + b3.show_comps(f.components)
     except Exception as e:
         return err(e)
@@ -63,9 +80,15 @@ def prop_c13(t, spec):
     text = b3.parse_str(t)
     exp = json.loads(unhx(spec).decode())
     try:
-        f = Bf3File.bf2_import(io.StringIO(text))
+        f = _import(text)
     except Exception as e:
         return f"FAIL import raises {type(e).__name__}: {e}"
+    try:
+        f2 = _import(text, True, force_path=True)
+        if b3.show_comments(f2.comments) + b3.show_comps(f2.components) != b3.show_comments(f.comments) + b3.show_comps(f.components):
+            return "FAIL importing the file by path gives another result than importing the same text as a stream"
+    except Exception as e:
+        return f"FAIL import by path raises {type(e).__name__}: {e}"
     want = [({int(k): bytes.fromhex(v) for k, v in d.items()}, bytes.fromhex(p)) for d, p in exp]
     want.sort(key=lambda dp: dp[0][0xC3])
     if len(f.components) != len(want):
@@ -89,7 +112,7 @@ def prop_c13(t, spec):
 def prop_c13reject(t, why):
     text = b3.parse_str(t)
     try:
-        f = Bf3File.bf2_import(io.StringIO(text))
+        f = _import(text)
     except Exception as e:
         return "ok " + type(e).__name__
     return f"FAIL import accepted a file that cannot be represented ({why}): {len(f.components)} components"
